@@ -66,6 +66,11 @@ func c01Witnesses() []c01Witness {
 			Doc: wDoc(J{"/a/{mode}": J{"get": wOp("getA", J{"parameters": []interface{}{
 				J{"name": "mode", "in": "path", "required": true, "schema": J{"type": "string", "enum": []interface{}{"a", "b"}}},
 				J{"name": "mode", "in": "query", "schema": J{"type": "string", "enum": []interface{}{"x", "y"}}}}})}}, nil)},
+		// one package imported under two names by x-go-type-import: both names are imported
+		{Name: "one-import-path-under-two-names",
+			Doc: wDoc(J{}, J{"schemas": J{
+				"A": J{"type": "object", "properties": J{"id": J{"type": "string", "x-go-type": "googleuuid.UUID", "x-go-type-import": J{"path": "github.com/google/uuid", "name": "googleuuid"}}}},
+				"B": J{"type": "string", "x-go-type": "guuid.UUID", "x-go-type-import": J{"path": "github.com/google/uuid", "name": "guuid"}}}})},
 		{Name: "two-members-referring-to-a-renamed-schema",
 			Doc: wDoc(J{}, J{"schemas": J{"Z": J{"type": "object", "x-go-name": "ZRenamed", "properties": J{"a": J{"type": "string"}}},
 				"H": J{"type": "object", "properties": J{"first": J{"$ref": "#/components/schemas/Z"}, "second": J{"$ref": "#/components/schemas/Z"}}}}})},
